@@ -40,6 +40,7 @@ Record probe := Probe {
 Inductive iop :=
 | IAppend (ns : list N)
 | IDelete (from to : N) (nh : nat) (fails : list (nat * N * bool))
+| ISync
 | IRestart
 | IReopen.
 
@@ -62,6 +63,7 @@ Definition to_op (c : N -> hdr) (o : iop) : op :=
   match o with
   | IAppend ns => OAppend (map c ns)
   | IDelete f t nh fails => ODelete f t nh fails
+  | ISync => OSync
   | IRestart => ORestart
   | IReopen => OReopen
   end.
@@ -173,7 +175,7 @@ Definition spec_step (s : spec) (x : sstep) : spec * oobs * list hobs :=
       let '(s', out) := spec_delete s from to stop in
       (s', oob out, expected_log (sS s) nh fails from to stop)
     else (s, OFail, [])
-  | IRestart | IReopen => (s, OOk, [])
+  | ISync | IRestart | IReopen => (s, OOk, [])
   end.
 
 Fixpoint spec_ok (c : N -> hdr) (s : spec) (steps : list sstep) : bool :=
